@@ -65,6 +65,47 @@ def reachable(lib, roots):
     return seen
 
 
+def _is_fmt_node(pn):
+    return (pn.get('k') == 'Call' and pn.get('callee') and
+            strip_generics(pn['callee'].get('path') or '').startswith(('std::fmt::', 'core::fmt::', 'core::panicking::'))) or \
+        any('format' in str(m) or 'panic' in str(m) for m in (pn.get('expn') or []))
+
+
+def _bound_value_only_formatted(root, call):
+    """`let v = <call>.<option plumbing>;` where every use of v is an argument of a formatting call (error message)"""
+    from ..thir import walk
+    def contains_via_chain(e):
+        # the call is reached from the initialiser through method receivers / reference plumbing only
+        while isinstance(e, dict):
+            if e is call:
+                return True
+            k = e.get('k')
+            if k in ('Borrow', 'Deref', 'NeverToAny', 'PointerCoercion', 'ByUse', 'Scope'):
+                e = e.get('e')
+            elif k == 'Call' and e.get('args'):
+                e = e['args'][0]
+            else:
+                return False
+        return False
+    var = None
+    for blk in walk(root):
+        if blk.get('k') != 'Block':
+            continue
+        for st in blk.get('stmts', []):
+            if st.get('k') != 'Expr' and st.get('init') is not None and st['pat'].get('k') == 'Binding' and not st['pat'].get('sub') \
+                    and contains_via_chain(st['init']):
+                var = st['pat']['var']
+    if var is None:
+        return False
+    uses = 0
+    for n, anc in walk_anc(root):
+        if n.get('k') in ('Var', 'Upvar') and n.get('var') == var:
+            uses += 1
+            if not any(_is_fmt_node(pn) for pn, _ in anc):
+                return False
+    return uses > 0
+
+
 def run(chk):
     lib = load(chk)
     chk.technique = ("effect analysis: (a) every operation on a lane-carrying array in the strategies and the solver lies in the reviewed lane-wise surface "
@@ -110,6 +151,8 @@ def run(chk):
                 in_fmt = any(pn.get('k') == 'Call' and pn.get('callee') and
                              (strip_generics(pn['callee'].get('path') or '').startswith(('std::fmt::', 'core::fmt::', 'core::panicking::')))
                              for pn, _ in anc) or any('format' in str(m) or 'panic' in str(m) for pn, _ in anc for m in (pn.get('expn') or []))
+                if not in_fmt:
+                    in_fmt = _bound_value_only_formatted(bb.get('root'), x)
                 boundary_elem = 'RowBoundary' in ty0 and name == 'first'
                 ok = in_fmt or boundary_elem
                 chk.ob('R8.1', "%s applies `%s` (%s) to a lane array of dimension type %s%s" %
